@@ -34,6 +34,47 @@ def _locked(node, lock):
                for w in node.withs)
 
 
+def _held_on_entry(prog, W, mname, lock, _seen=()):
+    """the private method `mname` of class W runs with `lock` held whenever
+    it runs: every mention of its name in the package is the callee of a
+    call `self.mname(...)` in a method body of W itself (not in a nested
+    function, which may run later on another thread) that lies inside `with
+    lock` or in a method for which the same holds; it is never taken as a
+    value (callback, thread target) and there is at least one such call"""
+    if not mname.startswith('_') or mname.startswith('__') or \
+            mname in _seen or len(_seen) > 4:
+        return False
+    calls = {}
+    for om, m in W.methods.items():
+        own = set()
+        for g in all_funcs(m)[1:]:
+            own |= {id(x) for x in ast.walk(g.node)}
+        for c in ast.walk(m.node):
+            if isinstance(c, ast.Call) and \
+                    isinstance(c.func, ast.Attribute) and \
+                    c.func.attr == mname and \
+                    isinstance(c.func.value, ast.Name) and \
+                    c.func.value.id == 'self' and id(c) not in own:
+                calls[id(c.func)] = (om, m, c)
+    if not calls:
+        return False
+    for mod in prog.modules.values():
+        for x in ast.walk(mod.tree):
+            if isinstance(x, ast.Attribute) and x.attr == mname and \
+                    id(x) not in calls:
+                return False
+            if isinstance(x, ast.Constant) and x.value == mname:
+                return False                    # getattr(self, '<name>')
+    for om, m, c in calls.values():
+        node = I.stmt_node_map(cfg_of(m)).get(id(c))
+        if node is None:
+            return False
+        if not _locked(node, lock) and not _held_on_entry(
+                prog, W, om, lock, _seen + (mname,)):
+            return False
+    return True
+
+
 # ------------------------------------------------------------------------------
 # R20.1
 #
@@ -63,7 +104,9 @@ def r20_1(prog, rep, rid='R20.1', tier='quick'):
                 if node is None:
                     raise AnalysisError('R20.1: no CFG node for an access to '
                                         '%s in %s' % (hit, f.where))
-                rep.check(_locked(node, LOCK), rid, f,
+                rep.check(_locked(node, LOCK) or
+                          (f is m and _held_on_entry(prog, W, mname, LOCK)),
+                          rid, f,
                           '%s: access to %s under %s' % (f.qual, hit, LOCK),
                           construct=node.ast if node.kind in ('stmt', 'test')
                           else short(n, 60),
@@ -649,6 +692,141 @@ class _AllocFlow:
 
 
 _FLOWS = {}
+_HOISTED = {}
+
+
+def _hoist_helper_calls(finfo, inl):
+    """`x = [{'a': self._h(p), 'b': self._h(q)}]` -> `t1 = self._h(p); t2 =
+    self._h(q); x = [{'a': t1, 'b': t2}]` for calls of freshly extracted
+    helpers that sit inside a display / constructor call whose other leaves
+    are names and constants only (nothing else is evaluated that a helper
+    could influence; evaluation order of the helper calls is kept).  The
+    statement-level calls this produces are what the engine's inliner
+    handles.  Returns the number of calls hoisted."""
+    count = [0]
+
+    def simple(e):
+        return isinstance(e, (ast.Constant, ast.Name))
+
+    def scan(e, calls):
+        if simple(e):
+            return True
+        if isinstance(e, ast.Call):
+            if any(isinstance(a, ast.Starred) for a in e.args) or \
+                    any(k.arg is None for k in e.keywords):
+                return False
+            if inl.callee(finfo, e) is not None:
+                if all(simple(a) for a in e.args) and \
+                        all(simple(k.value) for k in e.keywords):
+                    calls.append(e)
+                    return True
+                return False
+            if isinstance(e.func, ast.Name):
+                return all(scan(a, calls) for a in e.args) and \
+                    all(scan(k.value, calls) for k in e.keywords)
+            return False
+        if isinstance(e, (ast.List, ast.Tuple, ast.Set)):
+            return all(scan(x, calls) for x in e.elts)
+        if isinstance(e, ast.Dict):
+            return all(k is not None and scan(k, calls) and scan(v, calls)
+                       for k, v in zip(e.keys, e.values))
+        return False
+
+    def do_block(stmts):
+        out = []
+        for s in stmts:
+            for fld in ('body', 'orelse', 'finalbody'):
+                if hasattr(s, fld) and isinstance(getattr(s, fld), list) \
+                        and not isinstance(s, (ast.FunctionDef,
+                                               ast.AsyncFunctionDef,
+                                               ast.ClassDef)):
+                    setattr(s, fld, do_block(getattr(s, fld)))
+            for h in getattr(s, 'handlers', ()):
+                h.body = do_block(h.body)
+            v = None
+            if isinstance(s, ast.Assign) and len(s.targets) == 1:
+                v = s.value
+            elif isinstance(s, (ast.Return, ast.Expr)):
+                v = s.value
+            calls = []
+            if v is None or isinstance(v, ast.Call) and \
+                    inl.callee(finfo, v) is not None or \
+                    not scan(v, calls) or not calls:
+                out.append(s)
+                continue
+            names = {}
+            for c in calls:
+                count[0] += 1
+                nm = 'hoisted__%d' % count[0]
+                names[id(c)] = nm
+                a = ast.Assign(targets=[ast.Name(id=nm, ctx=ast.Store())],
+                               value=c, lineno=s.lineno)
+                out.append(ast.copy_location(a, s))
+
+            class T(ast.NodeTransformer):
+                def visit_Call(self, n):
+                    if id(n) in names:
+                        return ast.copy_location(
+                            ast.Name(id=names[id(n)], ctx=ast.Load()), n)
+                    return self.generic_visit(n)
+            s.value = T().visit(s.value)
+            out.append(s)
+        for n in out:
+            ast.fix_missing_locations(n)
+        return out
+    finfo.node.body = do_block(finfo.node.body)
+    return count[0]
+
+
+def _nested_helper_call(fa, probe):
+    for s in ast.walk(fa.node):
+        if isinstance(s, (ast.Assign, ast.Expr, ast.Return)) and \
+                s.value is not None:
+            for c in ast.walk(s.value):
+                if c is not s.value and isinstance(c, ast.Call) and \
+                        probe.callee(fa, c) is not None:
+                    return True
+    return False
+
+
+def _alloc_view(prog):
+    """the program in which R20.2 / R20.8 read DefaultWorker._alloc: the
+    program itself, or - when _alloc hands the marking to a freshly extracted
+    helper that is called inside the expression that builds task['slots']
+    (a call position the engine's inliner does not handle) - a copy in which
+    those calls are hoisted into locals and the helper is inlined"""
+    k = id(prog)
+    if k in _HOISTED and _HOISTED[k][0] is prog:
+        return _HOISTED[k][1]
+    _HOISTED.clear()
+    view = prog
+    try:
+        from ..normalize import Inliner, inventory
+        known = {rel: set(v) for rel, v in inventory().items()}
+        fa = prog.method(WD[0], WD[1], '_alloc')
+        probe = Inliner(prog, known)
+        nested = _nested_helper_call(fa, probe)
+        if nested:
+            # (the other modules' trees are shared: building a model does
+            # not change a canonical tree)
+            trees = {rel: m.tree for rel, m in prog.modules.items()}
+            trees[WD[0]] = copy.deepcopy(trees[WD[0]])
+            P = type(prog)
+            p2 = P(prog.root, overlay=prog.overlay, trees=trees)
+            f2 = p2.method(WD[0], WD[1], '_alloc')
+            inl = Inliner(p2, known)
+            if _hoist_helper_calls(f2, inl):
+                # the model refers to the old statement lists: rebuild, then
+                # inline the (now statement-level) helper calls
+                p3 = P(prog.root, overlay=prog.overlay, trees=trees)
+                f3 = p3.method(WD[0], WD[1], '_alloc')
+                inl = Inliner(p3, known)
+                if inl.run_function(f3):
+                    view = P(prog.root, overlay=prog.overlay, trees=trees)
+    except AnalysisError:
+        view = prog
+    _HOISTED[k] = (prog, view)
+    return view
 
 
 def _alloc_flow(prog):
@@ -682,6 +860,7 @@ def r20_2(prog, rep, rid='R20.2'):
     rep.rule(rid, 'DefaultWorker._alloc marks only indices it tested free, '
              'records exactly those in task[\'slots\'], and _dealloc frees the '
              'recorded indices of the same kind', minimum=10)
+    prog = _alloc_view(prog)
     fa = prog.method(WD[0], WD[1], '_alloc')
     fd = prog.method(WD[0], WD[1], '_dealloc')
     rep.saw(fa)
@@ -926,6 +1105,7 @@ def r20_8(prog, rep, rid='R20.8'):
              'still marked busy - every "does not fit" test comes before the '
              'first mark, or the failing path frees what it marked',
              minimum=2)
+    prog = _alloc_view(prog)
     fa = prog.method(WD[0], WD[1], '_alloc')
     rep.saw(fa)
     A = _alloc_flow(prog)
@@ -4169,6 +4349,183 @@ def r20_13(prog, rep, rid='R20.13'):
                                   "complete" % (BACKLOG, key))
 
 
+# ------------------------------------------------------------------------------
+# R20.14  every backlog cell that exists when a queue registers is relayed:
+#         the relay of one cell does not depend on a sibling cell
+#
+def _cells_read(P, e, nid, depth=0):
+    """keys k (canonical text) of the backlog cells BACKLOG[k] /
+    BACKLOG.pop(k, ..) / BACKLOG.get(k, ..) that the value e, read at node
+    nid, is built from (locals with one reaching definition are followed)"""
+    out = set()
+    for x in ast.walk(e):
+        if isinstance(x, ast.Subscript) and \
+                unparse(P.canon(x.value, nid)) == BACKLOG:
+            out.add(unparse(P.canon(x.slice, nid)))
+        elif isinstance(x, ast.Call) and isinstance(x.func, ast.Attribute) \
+                and x.func.attr in ('pop', 'get') and x.args and \
+                unparse(P.canon(x.func.value, nid)) == BACKLOG:
+            out.add(unparse(P.canon(x.args[0], nid)))
+        elif isinstance(x, ast.Name) and isinstance(x.ctx, ast.Load) and \
+                depth < 3 and x.id != 'self' and x.id not in P.f.params:
+            ds = P.rdefs(x.id, nid)
+            if len(ds) == 1 and ds[0][1] is not None and \
+                    ds[0][0].kind == 'stmt':
+                out |= _cells_read(P, ds[0][1], ds[0][0].id, depth + 1)
+    return out
+
+
+def _backlog_atom(P, node):
+    """(key text, label under which the key is in the backlog) if the test
+    node asks `key in BACKLOG` (negated, `not in`, `.keys()`, or held in a
+    local with one reaching definition), else None"""
+    a, at = node.ast, node.id
+    if isinstance(a, ast.Name):
+        ds = P.rdefs(a.id, node.id)
+        if len(ds) == 1 and ds[0][1] is not None and ds[0][0].kind == 'stmt':
+            a, at = ds[0][1], ds[0][0].id
+    pos = 'T'
+    while isinstance(a, ast.UnaryOp) and isinstance(a.op, ast.Not):
+        a, pos = a.operand, ('F' if pos == 'T' else 'T')
+    if not (isinstance(a, ast.Compare) and len(a.ops) == 1 and
+            isinstance(a.ops[0], (ast.In, ast.NotIn))):
+        return None
+    c = P.canon(a, at)
+    cont = c.comparators[0]
+    if isinstance(cont, ast.Call) and isinstance(cont.func, ast.Attribute) \
+            and cont.func.attr == 'keys' and not cont.args:
+        cont = cont.func.value
+    if unparse(cont) != BACKLOG:
+        return None
+    if isinstance(a.ops[0], ast.NotIn):
+        pos = 'F' if pos == 'T' else 'T'
+    return unparse(c.left), pos, at
+
+
+def r20_14(prog, rep, rid='R20.14'):
+    rep.rule(rid, 'AgentSchedulingComponent.control_cb: whichever of the '
+             'backlog cells self._raptor_tasks[k] it relays to a registering '
+             'queue exist, each existing one can be relayed - the relay of '
+             'one cell is not shut off by the presence (or absence) of a '
+             'sibling cell', minimum=1)
+    cb = prog.method(SCH[0], SCH[1], 'control_cb')
+    rep.saw(cb)
+    P = _Paths(prog, cb)
+    g = P.g
+    sc = P.smap
+    relays = {}         # node id -> keys relayed there
+    first = {}          # key -> a relay call (for the location)
+    for c in calls_in(cb.node):
+        if not (isinstance(c.func, ast.Attribute) and c.func.attr == 'put'
+                and c.args and id(c) in sc):
+            continue
+        n = sc[id(c)]
+        if not unparse(P.canon(c.func.value, n.id)).startswith(QUEUES + '['):
+            continue
+        keys = set()
+        for a in c.args:
+            keys |= _cells_read(P, a, n.id)
+        if keys:
+            relays.setdefault(n.id, set()).update(keys)
+            for k in keys:
+                first.setdefault(k, c)
+    keys = sorted(first)
+    if not relays:
+        raise AnalysisError('R20.14: no backlog relay found in %s' % cb.where)
+    if len(keys) < 2 or len(keys) > 4:
+        rep.ok(rid, cb, '%d backlog cell(s) relayed: no sibling cell to '
+               'depend on' % len(keys), cb.loc())
+        return
+    atoms = {}
+    for n in g.nodes:
+        if n.kind == 'test' and n.ast is not None:
+            hit = _backlog_atom(P, n)
+            if hit is not None and hit[0] in keys:
+                atoms[n.id] = hit
+    held_at = {at: key for nid, (key, pos, at) in atoms.items() if at != nid}
+    # what a statement does to the cells: removed / stored -> later tests of
+    # that key are open again
+    touch = {}
+    for n in g.nodes:
+        if n.kind != 'stmt' or n.ast is None or isinstance(
+                n.ast, (ast.FunctionDef, ast.AsyncFunctionDef, ast.ClassDef)):
+            continue
+        ks = set()
+        for kind, t, st in I.stores(n.ast):
+            ct = P.canon(t, n.id)
+            if isinstance(ct, ast.Subscript) and \
+                    unparse(ct.value) == BACKLOG:
+                ks.add(unparse(ct.slice))
+            elif _is_prefix(BACKLOG, unparse(ct)):
+                ks |= set(keys)
+        for x in ast.walk(n.ast):
+            if isinstance(x, ast.Call) and isinstance(x.func, ast.Attribute) \
+                    and unparse(P.canon(x.func.value, n.id)) == BACKLOG and \
+                    x.func.attr in ('pop', 'popitem', 'clear', 'update',
+                                    'setdefault', '__delitem__',
+                                    '__setitem__'):
+                ks |= {unparse(P.canon(x.args[0], n.id))} if x.args and \
+                    x.func.attr in ('pop', 'setdefault') else set(keys)
+        if ks:
+            touch[n.id] = frozenset(ks)
+    for k in keys:
+        others = [x for x in keys if x != k]
+        for bits in range(2 ** len(others)):
+            sigma = {k: True}
+            for i, o in enumerate(others):
+                sigma[o] = bool(bits >> i & 1)
+
+            def transfer(node, edge, st, sigma=sigma):
+                # open_: cells changed on the way (a test of them is open
+                # again); fixed: locals holding a test result that was taken
+                # while the cell was still as the queue registration found it
+                open_, done, fixed = st
+                if edge.label == 'exc':
+                    return st
+                hit = atoms.get(node.id)
+                if hit is not None and edge.label in ('T', 'F'):
+                    key, pos, at = hit
+                    known = key not in open_ if at == node.id else at in fixed
+                    if known and (edge.label == pos) != sigma[key]:
+                        return None
+                    return st
+                if node.id in held_at:
+                    fixed = fixed | {node.id} if held_at[node.id] not in open_ \
+                        else fixed - {node.id}
+                if node.id in relays:
+                    done = done | frozenset(relays[node.id])
+                if node.id in touch:
+                    open_ = open_ | touch[node.id]
+                return (open_, done, fixed)
+            try:
+                ex = Exploration(g, g.entry.id,
+                                 (frozenset(), frozenset(), frozenset()),
+                                 transfer, max_states=20000)
+            except RuntimeError as e:
+                raise AnalysisError('%s: %s' % (cb.where, e))
+            rep.stat('paths_enumerated', ex.states)
+            can = any(k in t.state[1] for t in ex.terminals)
+            held = ', '.join('%s %s' % (o, 'present' if sigma[o] else
+                                        'absent') for o in others)
+            rep.check(can, rid, cb, 'the backlog cell [%s] can be relayed '
+                      'when %s' % (k, held),
+                      construct='relay %s | %s' % (k, held),
+                      message='%s: when a queue registers while %s[%s] '
+                      'exists and the sibling cell(s) are: %s, no way through '
+                      'the function relays %s[%s] - its relay is shut off by '
+                      'a test of another cell (elif / nesting / early exit '
+                      'after the sibling relay); nothing relays the cell '
+                      'later, the requests cached in it never run, never '
+                      'fail, never complete' % (cb.qual, BACKLOG, k, held,
+                                                BACKLOG, k),
+                      loc=cb.loc(first[k]),
+                      history="before master M registers, the scheduler "
+                      "receives one request for M by name and one with "
+                      "raptor_id '*' (both cached); M registers its queue: "
+                      "only one of the two backlogs is forwarded, the other "
+                      "request stays cached for ever")
+
+
 def run(prog, rep, tier):
     rep.decided = ('DefaultWorker touches its occupancy lists only under '
         '_rlock; _alloc marks only cells it tested free, records exactly '
@@ -4237,6 +4594,7 @@ def run(prog, rep, tier):
     r20_9(prog, rep, tier=tier)
     r20_10(prog, rep)
     r20_13(prog, rep)
+    r20_14(prog, rep)
     rep.attempt(r20_7, prog, rep)
 
 
@@ -4925,4 +5283,103 @@ SILENT += [
 ]
 
 from .c14 import corpus_variants          # noqa: E402
+# ---- round 7: marking helper called inside the slot expression (R20.2 / R20.8
+#      read _alloc through _alloc_view), sibling backlog cells (R20.14) -------
+_CLAIM_R13 = (
+    "    def _claim(self, kind, count):\n\n"
+    "        claimed = list()\n\n"
+    "        if not count:\n"
+    "            return claimed\n\n"
+    "        occupancy = self._resources[kind]\n\n"
+    "        for n, busy in enumerate(occupancy):\n\n"
+    "            if busy:\n"
+    "                continue\n\n"
+    "            occupancy[n] = 1\n"
+    "            claimed.append(n)\n\n"
+    "            if len(claimed) == count:\n"
+    "                break\n\n"
+    "        return claimed\n\n\n")
+_FIT_OR = ("            if cores > self._resources['cores'].count(0) or \\\n"
+           "               gpus  > self._resources['gpus' ].count(0):\n"
+           "                return False\n")
+_SLOTS_CALLS = ("            task['slots'] = [{'cores': self._claim('cores', cores),\n"
+                "                              'gpus' : self._claim('gpus',  gpus)}]")
+_NAME_PUT = ("                    self._log.debug('relay %d tasks to raptor %s', len(tasks), name)\n"
+             "                    self._raptor_queues[name].put(tasks)\n")
+_STAR_BLOCK = (_STAR + "\n"
+               "                    self._log.debug('* relay %d tasks to raptor %s', len(tasks), name)\n"
+               "                    self._raptor_queues[name].put(tasks)\n")
+_STAR_NESTED = (
+    "                    if '*' in self._raptor_tasks:\n\n"
+    "                        tasks = self._raptor_tasks['*']\n"
+    "                        del self._raptor_tasks['*']\n\n"
+    "                        self._log.debug('* relay %d tasks to raptor %s', len(tasks), name)\n"
+    "                        self._raptor_queues[name].put(tasks)\n")
+
+
+def _r13(slots=_SLOTS_CALLS, claim=_CLAIM_R13, fit=_FIT_OR):
+    return [(_D, _MARKING, fit), (_D, _SLOTS, slots),
+            (_D, _ALLOC_AT, claim + _ALLOC_AT)]
+
+
+MUTATIONS += [
+    dict(name="R20.14 seed C20-j4: the '*' relay became an elif of the named relay", rules=('R20.14',), edits=[
+        (_B, _STAR, _STAR.replace("                if '*'", "                elif '*'"))],
+         note="one request for master M by name and one for '*' cached, M registers: the '*' request stays cached"),
+    dict(name='R20.14 early return after the named backlog was relayed', rules=('R20.14',), edits=[
+        (_B, _NAME_PUT, _NAME_PUT + "                    return\n")]),
+    dict(name="R20.14 '*' relay nested into the branch of the named backlog", rules=('R20.14',), edits=[
+        (_B, _STAR_BLOCK, _STAR_NESTED)],
+         note="only '*' cached when M registers: never relayed"),
+    dict(name="R20.14 '*' relay only when no named backlog existed (test held in a local)", rules=('R20.14',), edits=[
+        (_B, "                # send tasks which were collected for this queue\n",
+             "                named = name in self._raptor_tasks\n"),
+        (_B, _STAR_BLOCK, "                if not named:\n" + _STAR_NESTED)]),
+    dict(name='R20.14 sibling: named relay only when no wildcard backlog exists', rules=('R20.14',), edits=[
+        (_B, "                if name in self._raptor_tasks:\n\n                    tasks = self._raptor_tasks[name]\n                    del self._raptor_tasks[name]\n\n                    self._log.debug('relay",
+             "                if '*' in self._raptor_tasks:\n                    pass\n                elif name in self._raptor_tasks:\n\n                    tasks = self._raptor_tasks[name]\n                    del self._raptor_tasks[name]\n\n                    self._log.debug('relay")]),
+    dict(name='R20.2 r13 shape (marking in _claim, called inside the slot dict) without the busy test', rules=('R20.2',), edits=
+         _r13(claim=_CLAIM_R13.replace("            if busy:\n                continue\n\n", ""))),
+    dict(name='R20.1 r13 shape with a second call of _claim outside the lock', rules=('R20.1',), edits=
+         _r13() + [(_D, "        self._prof.prof('schedule_try', uid=uid)\n",
+                        "        self._prof.prof('schedule_try', uid=uid)\n        spare = self._claim('gpus', 0)\n")],
+         note='the helper no longer runs with the lock held on every entry'),
+    dict(name='R20.1 r13 shape with _claim handed out as a callback', rules=('R20.1',), edits=
+         _r13() + [(_D, "        self._prof.prof('schedule_try', uid=uid)\n",
+                        "        self._prof.prof('schedule_try', uid=uid)\n        self._claimer = self._claim\n")]),
+    dict(name='R20.2 r13 shape with the kinds crossed in the slot dict', rules=('R20.2',), edits=
+         _r13(slots="            task['slots'] = [{'cores': self._claim('gpus',  gpus),\n"
+                    "                              'gpus' : self._claim('cores', cores)}]")),
+    dict(name='R20.8 r13 shape with the gpu fit test behind the slot assignment', rules=('R20.8',), edits=
+         _r13(fit="            if cores > self._resources['cores'].count(0):\n                return False\n",
+              slots=_SLOTS_CALLS + "\n            if len(task['slots'][0]['gpus']) < gpus:\n                return False\n")),
+]
+
+SILENT += [
+    dict(name='seed C20-r13: marking in _claim called inside the slot dict, guards merged with or', edits=_r13()),
+    dict(name='r13 shape, slot built by dict(cores=.., gpus=..)', edits=
+         _r13(slots="            task['slots'] = [dict(cores=self._claim('cores', cores),\n"
+                    "                                  gpus=self._claim('gpus', gpus))]")),
+    dict(name='r13 shape, _claim of the checked-free kind (CLAIM_PLAIN body)', edits=
+         _r13(claim=_CLAIM_PLAIN)),
+    dict(name="control_cb: '*' test repeats that the named cell is gone (it was deleted above)", edits=[
+        (_B, _STAR, _STAR.replace("if '*' in self._raptor_tasks:", "if name not in self._raptor_tasks and '*' in self._raptor_tasks:"))]),
+    dict(name='control_cb: both membership tests taken up-front into locals', edits=[
+        (_B, "                # send tasks which were collected for this queue\n                if name in self._raptor_tasks:\n",
+             "                has_named = name in self._raptor_tasks\n                has_star  = '*' in self._raptor_tasks\n                if has_named:\n"),
+        (_B, _STAR, _STAR.replace("if '*' in self._raptor_tasks:", "if has_star:"))]),
+    dict(name='control_cb: backlogs taken with pop()', edits=[
+        (_B, "                    tasks = self._raptor_tasks[name]\n                    del self._raptor_tasks[name]\n\n                    self._log.debug('relay",
+             "                    tasks = self._raptor_tasks.pop(name)\n\n                    self._log.debug('relay"),
+        (_B, "                    tasks = self._raptor_tasks['*']\n                    del self._raptor_tasks['*']\n",
+             "                    tasks = self._raptor_tasks.pop('*')\n")]),
+    dict(name="control_cb: '*' relay in early-exit form at the end of the branch", edits=[
+        (_B, _STAR_BLOCK,
+             "                if '*' not in self._raptor_tasks:\n                    return\n\n"
+             "                tasks = self._raptor_tasks['*']\n"
+             "                del self._raptor_tasks['*']\n\n"
+             "                self._log.debug('* relay %d tasks to raptor %s', len(tasks), name)\n"
+             "                self._raptor_queues[name].put(tasks)\n")]),
+]
+
 SILENT += corpus_variants('C20')
